@@ -56,4 +56,8 @@ def extra(tier, seed, workers, only):
                         specs.append(make_spec("mc.props.seqfault", "SeqFaultHarness", ct=ct, variant=variant, method="POST", warm=warm,
                                                early=early, body=body))
     st = engine.explore_many(specs, workers=workers, bound=1, seed=seed, max_violations=100)
-    return st, {"sequential_fault_histories": len(specs), "executions": st.evaluations}
+    # the same kind of history through the real backends (OS-level failures): a streamed upload answered early, then a follow-up
+    from . import backends
+    bst, binfo = backends.run_for(tier, seed, workers, None, purpose="early")
+    st.merge_from(bst)
+    return st, {"sequential_fault_histories": len(specs), "executions": st.evaluations, "real_backends": binfo}
